@@ -166,6 +166,10 @@ pub struct NodeCtx {
     /// members this node removed (node GC / remove_node) and the heartbeat their copy had then —
     /// a harness-side record, independent of the implementation's own memory
     pub removed_hb: BTreeMap<ChitchatId, u64>,
+    /// dead-node grace period (ticks) and, per member, the time of the evaluation that first found it
+    /// dead (continuously since) — harness-side, independent of the detector's own record
+    pub dead_grace: u64,
+    pub dead_since: BTreeMap<ChitchatId, u64>,
     pub watch_rx: watch::Receiver<BTreeMap<ChitchatId, NodeState>>,
     _seeds_tx: watch::Sender<HashSet<std::net::SocketAddr>>,
 }
@@ -701,6 +705,56 @@ impl Exec {
         let slot = a.first()?.nat()?;
         let bytes = a.get(1)?.bytes()?;
         let (l, o, pm) = self.do_dec(&bytes);
+        // C03 (grouping on decode): the generator's op list says which member each op belongs to
+        if let Some(ops) = a.get(2).and_then(|x| x.tagged("ops")) {
+            let mut groups: Vec<(ChitchatId, Vec<(String, u64)>)> = Vec::new();
+            let mut duplicate = false;
+            let mut orphan = false;
+            for op in ops {
+                match op.head()? {
+                    "opn" => {
+                        let id = r_id(&op.tagged("opn")?[0])?;
+                        if groups.iter().any(|g| g.0 == id) {
+                            duplicate = true;
+                        }
+                        groups.push((id, Vec::new()));
+                    }
+                    "opk" => {
+                        let f = op.tagged("opk")?[0].tagged("m")?.to_vec();
+                        match groups.last_mut() {
+                            Some(g) => g.1.push((f[0].string()?, f[2].nat()?)),
+                            None => orphan = true,
+                        }
+                    }
+                    _ => {
+                        if groups.is_empty() {
+                            orphan = true;
+                        }
+                    }
+                }
+            }
+            let decoded = match &pm {
+                Some(PMsg::SynAck { delta, .. }) | Some(PMsg::Ack { delta }) => Some(delta),
+                _ => None,
+            };
+            if let Some(delta) = decoded {
+                let got: Vec<(ChitchatId, Vec<(String, u64)>)> = delta
+                    .node_deltas
+                    .iter()
+                    .map(|nd| (nd.chitchat_id.clone(), nd.key_values.iter().map(|kv| (kv.key.clone(), kv.version)).collect()))
+                    .collect();
+                if duplicate || orphan {
+                    self.monitor_hit("C03", "decode-grouping", &format!(
+                        "an op stream with {} was decoded instead of being refused ({} node deltas)",
+                        if duplicate { "a member header appearing twice" } else { "an op before any member header" }, got.len()));
+                } else if got != groups {
+                    self.monitor_hit("C03", "decode-grouping", &format!(
+                        "decoded node deltas {:?} differ from the grouping of the op stream {:?}",
+                        got.iter().map(|g| (g.0.node_id.clone(), g.1.clone())).collect::<Vec<_>>(),
+                        groups.iter().map(|g| (g.0.node_id.clone(), g.1.clone())).collect::<Vec<_>>()));
+                }
+            }
+        }
         let mut out = vec![(l, o)];
         if let Some(pm) = pm {
             let (l, o, _) = self.process_msg(slot, &pm)?;
@@ -719,6 +773,9 @@ impl Exec {
         let thr = a.get(4)?.nat()?;
         let mut out = Vec::new();
         let (l, o, pd) = self.do_mkdelta(10_000_000, &ops)?;
+        if o.starts_with("(panic") {
+            self.monitor_hit("C08", "emit-abort", &format!("a delta over distinct members with increasing versions cannot be serialized: {}", &o[..o.len().min(200)]));
+        }
         out.push((l, o));
         let Some(pd) = pd else { return Some(out) };
         let pm = match kind.as_str() {
@@ -1004,6 +1061,25 @@ impl Exec {
                 }
             }
         }
+        // C12: quarantine after half the grace period, removal after the full one — measured from the
+        // evaluation that first found the member dead, as recorded by the harness
+        {
+            let sched: BTreeSet<ChitchatId> = {
+                let _g = self.rt.enter(); // the detector reads the (paused) clock
+                ctx.cc.scheduled_for_deletion_nodes().cloned().collect()
+            };
+            for (id, since) in &ctx.dead_since {
+                if live.contains(id) || ctx.cc.node_state(id).is_none() {
+                    continue;
+                }
+                let d = now - since;
+                if d >= ctx.dead_grace {
+                    hits.push(("C12", format!("member {:?} has been dead at every evaluation for {d} ticks (grace period {}) but its state was not removed", id.node_id, ctx.dead_grace)));
+                } else if 2 * d > ctx.dead_grace && !sched.contains(id) {
+                    hits.push(("C12", format!("member {:?} has been dead at every evaluation for {d} ticks (more than half the grace period {}) but is not scheduled for deletion (it is still advertised)", id.node_id, ctx.dead_grace)));
+                }
+            }
+        }
         for id in ctx.cc.node_states().keys() {
             if *id != ctx.id && live.contains(id) == dead.contains(id) {
                 hits.push(("C12", format!("after the evaluation member {:?} is in {} of the live/dead sets", id.node_id, if live.contains(id) { "both" } else { "neither" })));
@@ -1035,6 +1111,10 @@ impl Exec {
             self.monitor_hit(p, "liveness", &d);
         }
         if let Some(ctx) = self.nodes.get_mut(&slot) {
+            let old = std::mem::take(&mut ctx.dead_since);
+            for id in &dead_now {
+                ctx.dead_since.insert(id.clone(), old.get(id).copied().unwrap_or(now));
+            }
             for id in dead_now {
                 ctx.streak.remove(&id);
             }
@@ -1262,7 +1342,7 @@ impl Exec {
                 // initial key-values fired no listener (none was subscribed yet); the model reports
                 // them, so reconstruct them from the state for comparison.
                 let init_events: Vec<(ChitchatId, String, String)> = Vec::new();
-                let ctx = NodeCtx { calls: Arc::new(Mutex::new(Vec::new())), handles: BTreeMap::new(), active: BTreeMap::new(), refmap: RefMap::default(), grace, cc, id: id.clone(), events, callbacks, publishes: 0, fd_params: Some((f[0].nat()?, f[1].nat()?, f[4].nat()?)), max_interval: f[3].nat()?, pred: pred_spec.clone(), removed_hb: BTreeMap::new(),
+                let ctx = NodeCtx { calls: Arc::new(Mutex::new(Vec::new())), handles: BTreeMap::new(), active: BTreeMap::new(), refmap: RefMap::default(), grace, cc, id: id.clone(), events, callbacks, publishes: 0, fd_params: Some((f[0].nat()?, f[1].nat()?, f[4].nat()?)), max_interval: f[3].nat()?, pred: pred_spec.clone(), removed_hb: BTreeMap::new(), dead_grace: f[5].nat()?, dead_since: BTreeMap::new(),
                     hbtrack: BTreeMap::new(), streak: BTreeMap::new(), watch_rx, _seeds_tx: seeds_tx };
                 self.nodes.insert(slot, ctx);
                 self.resync_ref(slot);
@@ -1730,9 +1810,11 @@ impl Exec {
                 let idx = a.get(1)?.nat()?;
                 let ctx = self.nodes.get_mut(&slot)?;
                 if let Some((_, h)) = ctx.handles.get_mut(&idx) {
-                    if h.is_some() {
-                        ctx.active.remove(&idx);
+                    if h.is_none() {
+                        // the handle is gone already (dropped, or consumed by `forever`): nothing to drop
+                        return Some(("(nop)".to_string(), "(nop)".to_string()));
                     }
+                    ctx.active.remove(&idx);
                     drop(h.take());
                 }
                 Some((line, "(ok)".to_string()))
@@ -1906,10 +1988,48 @@ impl Exec {
                 let check = verif::node_check_delta_status(ns, &nd);
                 let wellformed = nd.key_values.iter().all(|kv| kv.version <= nd.max_version);
                 let before = (ns.last_gc_version(), ns.max_version());
+                let versions_before: Vec<(String, u64)> = ns.key_values_including_deleted().map(|(k, vv)| (k.to_string(), vv.version)).collect();
+                let from = nd.from_version_excluded;
+                let delta_kvs: Vec<(String, u64, u8)> = nd.key_values.iter().map(|kv| (kv.key.clone(), kv.version, kv.status)).collect();
                 let r = catch_unwind(AssertUnwindSafe(|| verif::node_apply_delta(ns, nd)));
                 match r {
                     Ok(st) => {
                         let name = |s: u8| ["reject", "apply", "reset"][s as usize].to_string();
+                        // C04: without a reset, no key's stored version decreases or disappears
+                        let mut kviol: Option<String> = None;
+                        if st != 2 {
+                            let ns = ctx.cc.node_state(&id)?;
+                            for (k, v) in &versions_before {
+                                match ns.get_versioned(k) {
+                                    Some(vv) if vv.version >= *v => {}
+                                    Some(vv) => kviol = Some(format!("key {k:?}: stored version went from {v} to {} without a reset", vv.version)),
+                                    None => kviol = Some(format!("key {k:?} (version {v}) disappeared without a reset")),
+                                }
+                            }
+                        }
+                        // C04: a key-value of the delta that is new to the copy (above the version floor,
+                        // not an already collected tombstone) is never shadowed by an older one
+                        if st != 0 {
+                            let ns = ctx.cc.node_state(&id)?;
+                            let floor = if st == 2 { 0 } else { before.1 };
+                            let gc_after = ns.last_gc_version();
+                            for (k, v, status) in &delta_kvs {
+                                if *v <= floor || (*status != 0 && *v <= gc_after) {
+                                    continue;
+                                }
+                                let stored = ns.get_versioned(k).map(|vv| vv.version);
+                                if stored.map(|sv| sv < *v).unwrap_or(true) {
+                                    kviol = Some(format!("key {k:?}: the delta carried version {v} (above the copy's floor {floor}) but the copy ends with {stored:?}"));
+                                }
+                            }
+                        }
+                        // C02: an incremental apply covers (from, max]; starting above the copy's
+                        // max version leaves (copy max, from] uncovered
+                        let gap = if st == 1 && from > before.1 {
+                            Some(format!("a delta starting after version {from} was applied without a reset to a copy at (gc {}, max {}): nothing covers the versions in ({}, {from}]", before.0, before.1, before.1))
+                        } else {
+                            None
+                        };
                         let after = {
                             let ns = ctx.cc.node_state(&id)?;
                             (ns.last_gc_version(), ns.max_version())
@@ -1927,6 +2047,12 @@ impl Exec {
                         if let Some(v) = viol {
                             self.monitor_hit("C04", "frontier", &v);
                             self.monitor_hit("C14", "frontier", &v);
+                        }
+                        if let Some(v) = kviol {
+                            self.monitor_hit("C04", "key-version", &v);
+                        }
+                        if let Some(v) = gap {
+                            self.monitor_hit("C02", "gap", &v);
                         }
                         let ctx = self.nodes.get(&slot)?;
                         let evc = self.p_evc(slot, &evs);
@@ -2269,8 +2395,11 @@ impl Exec {
                         return Some(out);
                     }
                 }
-                if pd.node_deltas.is_empty() && mtu >= 60_000 && scopy.max_version > rcopy.max_version {
-                    self.monitor_hit("C14", "empty", "the sender is ahead but offered nothing although space permits");
+                let offers_nothing = pd.node_deltas.iter().all(|nd| nd.chitchat_id != x || (nd.key_values.is_empty() && nd.max_version == 0));
+                if offers_nothing && mtu >= 60_000 && scopy.max_version > rcopy.max_version {
+                    self.monitor_hit("C14", "empty", &format!(
+                        "the sender (gc {}, max {}) is ahead of the receiver (gc {}, max {}) but offered nothing (no key-value, no max version) although space permits",
+                        scopy.last_gc, scopy.max_version, rcopy.last_gc, rcopy.max_version));
                 }
             } else {
                 return Some(out);
@@ -2337,6 +2466,7 @@ impl Exec {
         let cb_before = ctx.callbacks.load(Ordering::SeqCst);
         let gc_before: BTreeMap<ChitchatId, u64> =
             ctx.cc.node_states().iter().map(|(id, ns)| (id.clone(), ns.last_gc_version())).collect();
+        let removed_before: BTreeMap<ChitchatId, u64> = ctx.removed_hb.clone();
         // C05: the own heartbeat moves only through the node's own gossip activity
         let own_hb_before: u64 = ctx.cc.node_state(&ctx.id).map(|ns| ns.heartbeat().into()).unwrap_or(0);
         // C15 (replicated writes): versions held before, for exactly the keys the delta mentions
@@ -2468,6 +2598,29 @@ impl Exec {
                     }
                     if self.fingerprint_others(slot) != fp_before {
                         self.monitor_hit("C16", "foreign-syn-state", "a SYN carrying a different cluster id changed membership, key-values or failure-detector state");
+                    }
+                }
+                // C11: every heartbeat of the digest reaches the copy (and through it the detector),
+                // except for a removed member whose heartbeat is not above the one known at removal
+                {
+                    let mut dropped: Option<String> = None;
+                    if let Some(ctx) = self.nodes.get(&slot) {
+                        for (id, hb) in &digest_hbs {
+                            if *id == ctx.id {
+                                continue;
+                            }
+                            if removed_before.get(id).map(|k| hb <= k).unwrap_or(false) {
+                                continue;
+                            }
+                            let now: Option<u64> = ctx.cc.node_state(id).map(|ns| ns.heartbeat().into());
+                            if now.map(|h| h < *hb).unwrap_or(true) {
+                                dropped = Some(format!("the digest carried heartbeat {hb} for member {:?} but the copy has {now:?} afterwards", id.node_id));
+                                break;
+                            }
+                        }
+                    }
+                    if let Some(d) = dropped {
+                        self.monitor_hit("C11", "digest-heartbeat-dropped", &d);
                     }
                 }
                 for (id, hb) in &digest_hbs {
